@@ -675,8 +675,12 @@ def _init_events(R, mro: List[str]) -> List[Tuple[str, str, str]]:
                     continue
                 if isinstance(s, ast.For):
                     # the variables loop
-                    if any(method_call(x, 'add_variable') and isinstance(x.args[0], ast.Name) for x in ast.walk(s)) \
-                            and text(s.iter) in ('self.names', 'names'):
+                    # `super().add_variable(name, ...)` / `self.add_variable(name, ...)` / `Class.add_variable(self, name, ...)` with
+                    # the loop variable as the name, over the model's names (or a copy of that list)
+                    it_ = s.iter.args[0] if is_call(s.iter, 'list', 'tuple') and len(s.iter.args) == 1 else s.iter
+                    tv_ = text(s.target)
+                    if any(method_call(x, 'add_variable') and any(isinstance(a_, ast.Name) and a_.id == tv_ for a_ in x.args[:2]) for x in ast.walk(s)) \
+                            and text(it_) in ('self.names', 'names', "self.__dict__['names']"):
                         events.append(('VARIABLES', '*', cname))
                         continue
                     visit(s.body)
@@ -1073,7 +1077,14 @@ def r7_end_of_input(R) -> None:
 
     def carried(tn, a) -> bool:
         names = {x.id for x in ast.walk(a) if isinstance(x, ast.Name) and x.id in f.lf.locals}
-        return bool(names) and all(any(s == PARAM or lp.id not in f.cfg.nodes[s].loops for (s, _v) in f.lf.values_reaching(tn.id, nm)) for nm in names)
+        def from_before(s_, nm_):
+            # defined before the loop - or updated from its own previous value (`x += ...`, `x = x + ...`): either way the
+            # value depends on earlier lines
+            if s_ == PARAM or lp.id not in f.cfg.nodes[s_].loops:
+                return True
+            a_ = f.cfg.nodes[s_].ast
+            return isinstance(a_, ast.AugAssign) or (isinstance(a_, ast.Assign) and any(isinstance(x, ast.Name) and x.id == nm_ for x in ast.walk(a_.value)))
+        return bool(names) and all(any(from_before(s, nm) for (s, _v) in f.lf.values_reaching(tn.id, nm)) for nm in names)
 
     def flagform(a, truth):
         """`x is False` / `x == False` / `x is not True` read as the flag x being false."""
